@@ -24,7 +24,8 @@ import (
 // interleaved (C09: judged by the reference model with per-route constraint
 // sets; C10: judged by a twin tree populated identically).
 type histCase struct {
-	Steps []histStep `json:"steps"`
+	Steps   []histStep `json:"steps"`
+	RawPath bool       `json:"set_raw_path,omitempty"` // requests also carry URL.RawPath (valid non-canonical encoding of Path)
 }
 
 type histStep struct {
@@ -101,7 +102,7 @@ func genReqHeaders(rng *rand.Rand, want []string) [][2]string {
 }
 
 func genHistCase(rng *rand.Rand, prop string) *histCase {
-	c := &histCase{}
+	c := &histCase{RawPath: rng.Intn(3) == 0}
 	cfg := gen.Cfg{AllowRoot: true, MaxSegs: 3}
 	staticBias := rng.Intn(3) != 0
 	pool := gen.GenPool(rng, cfg)
@@ -352,6 +353,9 @@ func judgeHist(w *core.W, c *histCase, prop string) {
 			hit, seen, nf = -1, nil, false
 			rec := httptest.NewRecorder()
 			req := &http.Request{Method: st.Method, URL: &url.URL{Path: path}, Header: hdr, RequestURI: path}
+			if c.RawPath {
+				req.URL.RawPath = nonCanonicalEncoding(path, si)
+			}
 			var pan interface{}
 			func() {
 				defer func() { pan = recover() }()
